@@ -55,6 +55,7 @@ var specs = []Spec{
 	{"x/amm/keeper", "Keeper.ExitPool", "exitPoolGuards", false, true, ""},
 	{"x/accountedpool/keeper", "Keeper.PerpetualUpdates", "accountedAmount", false, true, "accountedPool.TotalTokens[i] ="},
 	{"x/perpetual/keeper", "Keeper.CheckAndLiquidateUnhealthyPosition", "perpLiquidateGuards", false, true, "if mtp.MtpHealth.LTE(safetyFactor)"},
+	{"x/leveragelp/keeper", "Keeper.ForceCloseLong", "lpCloseRepay", false, true, "collateralLeft :="},
 	{"x/stablestake/keeper", "msgServer.Bond", "bondShares", false, true, "shareCoins :="},
 	{"x/stablestake/keeper", "msgServer.Unbond", "unbondAmount", false, true, "depositDenom :="},
 	{"x/tradeshield/keeper", "msgServer.CancelSpotOrders", "cancelSpotBatchBody", false, true, ""},
@@ -76,6 +77,7 @@ var windowFrom = map[string]string{
 	"lpOpenHealthGuards":          "k.GetPositionHealth(",
 	"perpLiquidateGuards":         "safetyFactor := k.GetSafetyFactor(ctx)",
 	"bondShares":                  "if redemptionRate.IsZero()",
+	"lpCloseRepay":                "if position.LeveragedLpAmount.IsZero()",
 	"unbondAmount":                "redemptionAmount :=",
 }
 
@@ -96,6 +98,7 @@ var loopBody = map[string]bool{
 
 var windowResult = map[string]string{
 	"bondShares":      "shareAmount",
+	"lpCloseRepay":    "repayAmount",
 	"unbondAmount":    "redemptionAmount",
 	"accountedAmount": "accountedPoolAmt",
 }
